@@ -63,7 +63,7 @@ const (
 type lcOp struct{ op, cl, arg int }
 
 type lcClient struct {
-	conn    *memConn
+	conn    *lcMemConn
 	state   int // 0 none, 1 open, 2 gone, 3 rejected, 4 leaked, 5 held
 	blocked bool
 	doomed  bool // blocked, and its exchange will not produce a reply (handler panics on release / client gone)
@@ -108,7 +108,7 @@ type lcHandler struct{ r *lcRun }
 
 func (h lcHandler) Handle(ctx context.Context, received packet.Request) (packet.Response, error) {
 	r := h.r
-	id := ctx.Value(server.ContextRemoteAddr{}).(net.Addr).(memAddr).id
+	id := ctx.Value(server.ContextRemoteAddr{}).(net.Addr).(lcMemAddr).id
 	b := received.Bytes()
 	mode := int(b[8])
 	// the release channel is taken in the same critical section that logs the start: a script step that
@@ -205,7 +205,7 @@ func runLifecycle(cfg int, script []lcOp) (events []lcEvent, extra [3]int, summa
 	}
 	if cfg&4 != 0 {
 		s.OnAcceptConnFunc = func(ctx context.Context, remoteAddr net.Addr, connectionCount uint64) error {
-			id := remoteAddr.(memAddr).id
+			id := remoteAddr.(lcMemAddr).id
 			w.mu.Lock()
 			c := w.conns[id]
 			rej := c.rejectMe || (r.limit > 0 && int(connectionCount) > r.limit)
@@ -231,7 +231,7 @@ func runLifecycle(cfg int, script []lcOp) (events []lcEvent, extra [3]int, summa
 			if isServerShutdown {
 				b = 1
 			}
-			id := remoteAddr.(memAddr).id
+			id := remoteAddr.(lcMemAddr).id
 			w.log(evCloseCb, id, b, 0)
 			w.mu.Lock()
 			h := w.conns[id].closeHook
@@ -270,7 +270,7 @@ func runLifecycle(cfg int, script []lcOp) (events []lcEvent, extra [3]int, summa
 		start++
 		w.mu.Lock()
 		for i := 0; i < burst; i++ {
-			c := &memConn{w: w, id: -1}
+			c := &lcMemConn{w: w, id: -1}
 			r.lis.pending = append(r.lis.pending, c)
 			r.clients[i] = &lcClient{conn: c, sent: map[uint16]bool{}}
 		}
@@ -495,7 +495,7 @@ func (r *lcRun) step(o lcOp) {
 		if r.onAccept() {
 			holdCall = 2
 		}
-		c, ok := r.lis.dial(func(c *memConn) {
+		c, ok := r.lis.dial(func(c *lcMemConn) {
 			c.rejectMe = rej
 			switch o.op {
 			case opConnectCancel:
@@ -538,7 +538,7 @@ func (r *lcRun) step(o lcOp) {
 			r.step(lcOp{opConnect, o.arg, 0})
 			return
 		}
-		got := make(chan *memConn, 1)
+		got := make(chan *lcMemConn, 1)
 		w.mu.Lock()
 		cl.conn.closeHook = func() {
 			c2, ok := r.lis.dial(nil)
@@ -553,7 +553,7 @@ func (r *lcRun) step(o lcOp) {
 		}
 		w.mu.Unlock()
 		cl.conn.clClose()
-		var c2 *memConn
+		var c2 *lcMemConn
 		select {
 		case c2 = <-got:
 		case <-time.After(25 * time.Second):
@@ -712,7 +712,7 @@ func (r *lcRun) step(o lcOp) {
 }
 
 // settle waits until a freshly accepted connection has reached its next quiescent point
-func (r *lcRun) settle(cl *lcClient, c *memConn, op int, rej bool) {
+func (r *lcRun) settle(cl *lcClient, c *lcMemConn, op int, rej bool) {
 	w := r.w
 	cl.conn = c
 	if r.onAccept() {
